@@ -28,7 +28,7 @@ pub fn cancel_r(rng: &mut StdRng, inst: i64, cid: &str, unknown_ex: bool) -> Val
 /// a batch of requests with pairwise distinct (instrument, cid)
 pub fn batch(rng: &mut StdRng, open: bool, max: usize) -> Vec<Value> {
     let mut keys: Vec<(i64, &str)> = vec![];
-    for i in 0..4 {
+    for i in 0..world2::N_INST as i64 {
         for c in USER_CIDS {
             keys.push((i, c));
         }
@@ -55,8 +55,8 @@ pub fn random_filter(rng: &mut StdRng) -> Value {
     match rng.random_range(0..4) {
         0 => no_filter(),
         1 => json!({"k": "Exchanges", "set": subset(rng, 2)}),
-        2 => json!({"k": "Instruments", "set": subset(rng, 4)}),
-        _ => json!({"k": "Underlyings", "set": subset(rng, 4)}),
+        2 => json!({"k": "Instruments", "set": subset(rng, world2::N_INST as i64)}),
+        _ => json!({"k": "Underlyings", "set": subset(rng, world2::N_INST as i64)}),
     }
 }
 
@@ -82,7 +82,7 @@ pub fn random_env(rng: &mut StdRng) -> Value {
 }
 
 pub fn random_event(rng: &mut StdRng) -> Value {
-    let inst = rng.random_range(0..4i64);
+    let inst = rng.random_range(0..world2::N_INST as i64);
     let ex = world2::EX_OF[inst as usize] as i64;
     let cid = *USER_CIDS.choose(rng).unwrap();
     match rng.random_range(0..100) {
